@@ -3,6 +3,7 @@
 
 #[macro_use]
 mod engine;
+mod alloc;
 mod aut;
 mod crcref;
 mod frozen_common_inputs;
@@ -13,6 +14,9 @@ mod oracle;
 mod props;
 
 use engine::{Engine, Tier};
+
+#[global_allocator]
+static GLOBAL: alloc::Counting = alloc::Counting;
 
 fn usage() -> ! {
     eprintln!("usage: vf <C01..C20> [--tier quick|thorough] [--replay <file>] [--seed N]");
